@@ -4,8 +4,8 @@
     pair-distance list whose two tips satisfy k;  [dists_equiv]: same multiset of
     (tip, tip, distance) entries, distances up to Qeq;  [len0]: a branch length, absent = 0. *)
 From Coq Require Import String ZArith QArith Bool Arith List Permutation.
-From GT Require Import Base.UTree Spec.Obs Spec.Unrooted Model.Reroot Model.Prune
-     Proofs.PruneBase Proofs.PruneStep Proofs.PruneRoot Proofs.Prune Proofs.PruneSplits.
+From GT Require Import Base.UTree Spec.Obs Spec.Induced Spec.Unrooted Model.Reroot Model.Prune
+     Proofs.PruneBase Proofs.PruneStep Proofs.PruneRoot Proofs.Prune Proofs.PruneSplits Proofs.PruneTotal Proofs.PruneOracle.
 Import ListNotations.
 Local Close Scope Q_scope.
 Local Open Scope string_scope.
@@ -78,3 +78,79 @@ Theorem C06_remove_tips_splits :
                cover t' (filter (kept revert names) L)).
 Proof. exact remove_tips_clades. Qed.
 Print Assumptions C06_remove_tips_splits.
+
+(** * totality: the property's quantifier ("all subsets that leave >= 3 tips") *)
+(** none of removeTip's error branches is reachable when at least three tips remain *)
+Theorem C06_remove_tips_total :
+  forall revert names t,
+    wf t = true -> no_single t = true -> 2 <= degree t -> NoDup (leaves t) ->
+    3 <= length (filter (kept revert names) (leaves t)) ->
+    exists t', remove_tips revert names t = Ok t'.
+Proof. exact remove_tips_total. Qed.
+Print Assumptions C06_remove_tips_total.
+
+(** a refusal means that at most two tips would remain, and it is one of two messages:
+    "The node named X is not a tip" or "The tree after tip removal is only made of two tips
+    after removing tip X"; the other error branches of removeTip / UpdateTipIndex are dead code
+    on such trees *)
+Theorem C06_remove_tips_refusals :
+  forall revert names t m,
+    wf t = true -> no_single t = true -> 2 <= degree t -> NoDup (leaves t) ->
+    remove_tips revert names t = Err m ->
+    length (filter (kept revert names) (leaves t)) <= 2 /\
+    exists nm, m = err_not_tip nm \/ m = err_two_tips nm.
+Proof. exact remove_tips_errors. Qed.
+Print Assumptions C06_remove_tips_refusals.
+
+(** one call of removeTip: success, "not a tip" (the name is not a leaf, or the tree is a single
+    node), or "only made of two tips" (exactly two other tips, both attached to the root) *)
+Theorem C06_remove_tip_cases :
+  forall nm t,
+    wf t = true -> no_single t = true -> degree t <> 1 -> NoDup (leaves t) ->
+    (exists t', remove_tip nm t = Ok t') \/
+    (remove_tip nm t = Err (err_not_tip nm) /\ (degree t = 0 \/ ~ In nm (leaves t))) \/
+    (remove_tip nm t = Err (err_two_tips nm) /\ In nm (leaves t) /\ length (filter (knm nm) (leaves t)) = 2).
+Proof. exact remove_tip_cases. Qed.
+Print Assumptions C06_remove_tip_cases.
+
+(** removing every tip is always refused *)
+Theorem C06_remove_all_refused :
+  forall revert names t,
+    wf t = true -> no_single t = true -> 2 <= degree t -> NoDup (leaves t) ->
+    filter (kept revert names) (leaves t) = [] ->
+    exists m, remove_tips revert names t = Err m.
+Proof. exact remove_tips_all_refused. Qed.
+Print Assumptions C06_remove_all_refused.
+
+(** with one or two tips left both outcomes occur (it depends on the shape and on the order of
+    the tips): no simpler characterisation than the two theorems above *)
+Definition ex_abc : utree := UNode "" [] [ex_tip "a" 1; ex_tip "b" 1; ex_tip "c" 1]%Q.
+Definition ex_ab_c : utree :=
+  UNode "" [] [Some (mkE 1 nilv nilv [], UNode "" [] [None; ex_tip "a" 1; ex_tip "b" 1]); ex_tip "c" 1]%Q.
+Definition ex_ab : utree := UNode "" [] [ex_tip "a" 1; ex_tip "b" 1]%Q.
+Example C06_two_left_both_outcomes :
+  remove_tips false ["c"] ex_abc = Err (err_two_tips "c") /\
+  (exists t', remove_tips false ["c"] ex_ab_c = Ok t' /\ leaves t' = ["a"; "b"]).
+Proof. split; [vm_compute; reflexivity|]. eexists. split; vm_compute; reflexivity. Qed.
+Print Assumptions C06_two_left_both_outcomes.
+Example C06_one_left_both_outcomes :
+  remove_tips false ["a"] ex_ab = Err (err_not_tip "b") /\
+  (exists t', remove_tips false ["b"] ex_ab = Ok t' /\ leaves t' = ["a"]).
+Proof. split; [vm_compute; reflexivity|]. eexists. split; vm_compute; reflexivity. Qed.
+Print Assumptions C06_one_left_both_outcomes.
+
+(** * the judge's oracle accepts the model's output *)
+(** the five clauses that Judge/C06.v checks on the pruned tree (well-formed; tip set exactly the
+    requested one; no single-child inner node; [usplits] of the result = the non-trivial
+    restrictions of [usplits] of the input, as sets of canonical sides; [dist_matrix len0] of the
+    result = the sub-matrix of the input on the kept tips) hold for every successful
+    [remove_tips]; with C06_remove_tips_total they hold whenever at least three tips remain *)
+Theorem C06_oracle_accepts_model :
+  forall revert names t t',
+    wf t = true -> no_single t = true -> 2 <= degree t -> NoDup (leaves t) ->
+    remove_tips revert names t = Ok t' ->
+    let R := ssort (filter (kept revert names) (leaves t)) in
+    wf t' = true /\ induced_tips t' R = true /\ no_single t' = true /\
+    induced_splits t t' R = true /\ induced_dists t t' R = true.
+Proof. exact remove_tips_oracle. Qed.
+Print Assumptions C06_oracle_accepts_model.
